@@ -279,6 +279,32 @@ func TestCheck(t *testing.T) {
 		}
 	}
 
+	// gopar's own volume layout with 258 blocks: only vol00+01 and vol255+03 survive, so exponents {0,255,256} are used;
+	// two of the three lost slices have constants that agree at exponent 255 (zero leading minor, non-singular system)
+	if cfg.Shard == 4%cfg.NShards || cfg.Shard == 5%cfg.NShards {
+		ci := gf16.PAR2Constants(400)
+		pa, pb := -1, -1
+		seen := map[uint16]int{}
+		for j, c := range ci {
+			k := gf16.FPow(c, 255)
+			if i, ok := seen[k]; ok {
+				pa, pb = i, j
+				break
+			}
+			seen[k] = j
+		}
+		if pa >= 0 {
+			third := pb + 7
+			if cfg.Shard == 5%cfg.NShards {
+				third = pa + 1
+			}
+			rec.Class("zero-leading-minor-constructed")
+			do(scen.Case{Slice: 8, NRec: 258, GCreate: 4, GRepair: 2, Files: []scen.FileSpec{{Name: "one.bin", Size: 8 * (pb + 20), Kind: "random", Seed: 21}},
+				Damage:       []scen.Damage{{Op: "flip", File: 0, Off: 8 * pa, Seed: 1}, {Op: "flip", File: 0, Off: 8*pb + 3, Seed: 2}, {Op: "flip", File: 0, Off: 8*third + 5, Seed: 3}},
+				KeepVolsWith: []int{0, 255}})
+		}
+	}
+
 	cfg.SetRapid(cfg.N(700, 9000), 1)
 	rapid.Check(t, func(rt *rapid.T) {
 		if !do(gen(rt, 0)) {
